@@ -132,9 +132,20 @@ PINNED = ['```\n```\n', '~~~\n\n~~~\n', '    a\n      \n    b\n', '```\n  \n```\
           '| a |\n|---|\n', '[a]: </x y> (t)\n\n[a]\n', '1. a\n\n   b\n2. c\n', '> a\nlazy\n', 'a  \nb\\\nc\n', '* * *\n\n_ _ _\n']
 
 
+# lines that look like a setext underline but are content: lazy continuation lines and lines indented four or more columns, in
+# paragraphs and in the content of setext headings (written back at the content offset they would end the block there)
+UNDERLINE_LIKE = ['> foo\n===\n> ---\n', '- foo\n===\n  ---\n', 'Foo\n    ---\n', '> foo\nbar\n===\n', 'a\n    ===\nb\n---\n', 'a\n    ---\nb\n===\n',
+                  '> a\n---\n> ===\n', '1. x\n===\n   y\n   ===\n', '> > q\n===\n> > ---\n', '- a\n      -\n  b\n  -\n']
+
+
 def run(ctx):
     sz = SIZES[ctx.tier]
     k = 0
+    for i, w in enumerate(UNDERLINE_LIKE):
+        if i % ctx.nshards == ctx.shard:
+            for nw in (False, True):
+                for clause, detail in (roundtrip(ctx, w, nw, {}) or []):
+                    ctx.violation(clause, 'underline-like content line: %r' % w[:24], {'kind': 'underline-like', 'index': i, 'normalize_whitespace': nw}, **detail)
     for ex in workloads.spec():
         for nw in (False, True):
             k += 1
@@ -184,6 +195,9 @@ def replay(ctx, case):
         check_spec(ctx, ex, case['normalize_whitespace'])
     elif case['kind'] == 'generated':
         check_generated(ctx, case['seed'], case['profile'], case['normalize_whitespace'])
+    elif case['kind'] == 'underline-like':
+        for clause, detail in (roundtrip(ctx, UNDERLINE_LIKE[case['index']], case['normalize_whitespace'], {}) or []):
+            ctx.violation(clause, 'underline-like content line', case, **detail)
     else:
         res = roundtrip(ctx, PINNED[case['index']], case['normalize_whitespace'], {})
         for clause, detail in (res or []):
